@@ -116,8 +116,14 @@ int32_t jls_track_repair_pointers(struct jls_core_track_s * track) {
             offset_descend_next = 0;
             if (JLS_TRACK_TYPE_FSR == track->track_type) {
                 struct jls_fsr_index_s * r = (struct jls_fsr_index_s *) core->buf->start;
-                if (r->header.entry_count > 0) {
-                    offset_descend_next = r->offsets[r->header.entry_count - 1];
+                for (uint32_t k = r->header.entry_count; k > 0; --k) {
+                    if (r->offsets[k - 1]) {  // level 1 entries of omitted blocks are 0
+                        offset_descend_next = r->offsets[k - 1];
+                        break;
+                    }
+                }
+                if ((0 == offset_descend_next) && (r->header.entry_count > 0) && (1 == level)) {
+                    offset_descend_next = offsets[0];  // all omitted: walk the data chunks from the first one
                 }
             } else {
                 struct jls_index_s * r = (struct jls_index_s *) core->buf->start;
